@@ -8,6 +8,7 @@
    error messages is not modelled. *)
 From Coq Require Import String List NArith ZArith Bool Ascii DecimalString.
 From Model Require Import Json Tables Walker Line Stream Base64 KeyFile Cli Atlas.
+From Gen Require Import Limits.
 Import ListNotations.
 Open Scope list_scope.
 
@@ -85,14 +86,19 @@ Definition flags_of (a : jargs) (w : jworld) : flags :=
      f_pub := nonempty_s (a_pub a); f_priv := nonempty_s (a_priv a);
      f_start := negb (Z.eqb (a_start a) 0); f_end := negb (Z.eqb (a_end a) 0); f_env := a_env a |}.
 
-(* strings.ToLower(filepath.Ext(path)) == ".gz": the path ends with ".gz" in any letter case *)
+(* which files are decompressed is decided by the END of the file name, letter case ignored (strings.ToLower(filepath.Ext(path))); the endings
+   themselves (".gz" today) are not written down here: they are found on the compiled program on every run (Gen/Limits.v) *)
 Definition lower (ch : ascii) : ascii :=
   let n := N_of_ascii ch in if ((65 <=? n) && (n <=? 90))%N then ascii_of_N (n + 32) else ch.
-Definition is_gz (path : string) : bool :=
-  match rev (list_ascii_of_string path) with
-  | z :: g :: d :: _ => Ascii.eqb (lower z) "z"%char && Ascii.eqb (lower g) "g"%char && Ascii.eqb d "."%char
-  | _ => false
+Fixpoint starts_with (p l : list ascii) : bool :=
+  match p, l with
+  | [], _ => true
+  | a :: p', b :: l' => Ascii.eqb a b && starts_with p' l'
+  | _ :: _, [] => false
   end.
+Definition ends_with_ci (path suffix : string) : bool :=
+  starts_with (rev (list_ascii_of_string suffix)) (map lower (rev (list_ascii_of_string path))).
+Definition is_gz (path : string) : bool := existsb (ends_with_ci path) gz_suffixes_dumped.
 
 Fixpoint count_nl (l : list ascii) : nat :=
   match l with [] => 0%nat | ch :: r => ((if Ascii.eqb ch nl then 1 else 0) + count_nl r)%nat end.
